@@ -286,3 +286,9 @@ Qed.
 
 Lemma isum_0 f k : isum f 0 k = rsum f k.
 Proof. unfold isum. apply rsum_ext. intros. reflexivity. Qed.
+
+Lemma isum_skip f lo hi : (lo <= hi)%nat -> (forall c, (c < lo)%nat -> f c = 0) -> isum f 0 hi = isum f lo hi.
+Proof.
+  intros H Z. unfold isum. apply rsum_ext. intros i Hi.
+  destruct (Nat.leb_spec lo i); simpl; auto.
+Qed.
